@@ -59,7 +59,7 @@ def jobs(tier):
     J.append(conc("1,0,1,0", workers=16, hmap=1, init=1, min_partition_order=0, pthread_create_eagain=1, prog0=prog((K_RESIZE, 4)),
                   prog1=prog((K_LOOKUP, 1)), **TWO))
     # lazy resizes racing with explicit ones and with destroy
-    lz = dict(flags=1, hmap=1, ninit=3, init_keys=0x210)
+    lz = dict(flags=1, hmap=4, init=1, ninit=3, init_keys=0x210)    # hashes 1,3,5 in one bucket: the 4th distinct hash (key 3) queues a lazy grow
     J.append(conc("2,0,0,0", prog0=prog((K_ADD, 3)), prog1=prog((K_RESIZE, 1)), prog2=prog((K_LOOKUP, 0), (K_LOOKUP, 2)), **lz))
     J.append(conc("2,0,0,0", prog0=prog((K_ADD, 3), (K_DEL, 3), (K_DEL, 2), (K_DEL, 1), (K_DEL, 0)), final_destroy=1, settle_end=0, **lz))
     J.append(conc("2,0,0,0", maxb=2, prog0=prog((K_ADD, 3)), prog1=prog((K_LOOKUP, 0), (K_WALKALL, 0)), **lz))
